@@ -7,5 +7,6 @@ func main() {
 		"gen": func(a []string) int { return RunGen(gens, a) },
 		"c09": c09,
 		"c02": c02,
+		"c10": c10,
 	})
 }
